@@ -78,6 +78,10 @@ def random_jobs(pid, n, seed, length):
         kind, ai = traces.CONFIGS[(i % 3) if i % 4 else 1]      # mostly auto_index on
         jobs.append(("bs%d" % i, kind, ai, g.batch_scenario(), g.battery(3), NTK, NFK))
         jobs.append(("sr%d" % i, kind, ai, g.scan_remove_scenario(), g.battery(3), NTK, NFK))
+    if pid in ("C03", "C11"):                  # one Point object stored several times, then failing updates (gen.alias_scenario)
+        for i in range(max(24, n // 20)):
+            g = gen.Gen(seed * 9973 + i * 17 + int(pid[1:]), ntk=NTK, nfk=NFK, focus=f["weights"], handles=0.0)
+            jobs.append(("al%d" % i, "mem" if i % 4 else "csv", i % 2, g.alias_scenario(), g.battery(2), NTK, NFK))
     return jobs
 
 
